@@ -1,4 +1,5 @@
 """C08 helper: realise a raw value in a packet, decode with the real parameter type, observe."""
+import json
 import struct
 import warnings
 from fractions import Fraction
@@ -40,9 +41,16 @@ def raw_bytes(enc, rawv):
     return struct.pack({16: ">e", 32: ">f", 64: ">d"}[enc["w"]], x)
 
 
-def observe(pt, env, rawv, via="ctor", od=False):
+def observe(pt, env, rawv, via="ctor", od=False, shared=None):
+    """shared: dict keeping ONE type object per (type, route), so that it decodes all cases of that type in sequence."""
     from space_packet_parser import common, exceptions
-    t = xrender.obj_type("T", pt) if via == "ctor" else xrender.type_from_xml("T", pt, od)
+    if shared is not None:
+        key = (json.dumps(pt, sort_keys=True), via, od)
+        t = shared.get(key)
+        if t is None:
+            t = shared[key] = xrender.obj_type("T", pt) if via == "ctor" else xrender.type_from_xml("T", pt, od)
+    else:
+        t = xrender.obj_type("T", pt) if via == "ctor" else xrender.type_from_xml("T", pt, od)
     pkt = crit.packet_of(env)
     from space_packet_parser import packets
     pkt.raw_data = packets.RawPacketData(raw_bytes(pt["enc"], rawv))
